@@ -7,6 +7,7 @@ import (
 	"go/types"
 	"os"
 	"path/filepath"
+	"runtime/debug"
 	"sort"
 	"strings"
 	"sync"
@@ -300,6 +301,11 @@ func (g *Gen) load(patterns []string) error {
 	g.fnIndex = map[string]*ssa.Function{}
 	for fn := range ssautil.AllFunctions(prog) {
 		if fn.Origin() != nil {
+			// an instantiation of a generic function can be put under contract by its instantiated name, e.g.
+			// numericTypeConverterFunc[uint64] (its SSA body is specialised to the type argument)
+			if _, taken := g.fnIndex[fn.String()]; !taken && len(fn.Blocks) > 0 {
+				g.fnIndex[fn.String()] = fn
+			}
 			continue
 		}
 		g.fnIndex[fn.String()] = fn
@@ -333,6 +339,9 @@ func (g *Gen) verifyFunc(ct *Contract) (fg *FnGen, err error) {
 	fg = g.newFnGen(fn, ct, shortFnName(fn))
 	defer func() {
 		if r := recover(); r != nil {
+			if os.Getenv("GOVC_TRACE") != "" {
+				fmt.Fprintf(os.Stderr, "generator failure in %s: %v\n%s\n", fn, r, debug.Stack())
+			}
 			err = fmt.Errorf("generator failure in %s: %v", fn, r)
 		}
 	}()
